@@ -34,6 +34,7 @@ def build_case(rng, spec, tier):
     w = dict(prof.get("weights", {}))
     w["reopen"] = 0.5
     w["clear"] = 0.7
+    w["bystander"] = 0  # the write log is keyed by file name: one index per recorded history
     ops = gen_history(rng, cfg, pool, text, rng.choice(tp.get("nops", (5, 12, 20))), weights=w)
     return {"engine": "crashcut", "cfg": cfg, "ops": ops, "aseed": rng.getrandbits(32)}
 
@@ -216,6 +217,15 @@ def check_cut(folder, files, rules, default, facts, probes, stats, label):
         pages = {}
         for node, lru in t.pages_iter():
             pages[lru] = bool(node.is_crawled())
+        # what the reopened index counts must be what it enumerates ("opens consistent")
+        try:
+            cp, cc = t.count_pages(), t.count_crawled_pages()
+        except Exception:
+            cp = cc = None
+        stats["C18_count_vs_enumeration"] += 1
+        if cp is not None and (cp != len(pages) or cc != sum(pages.values())):
+            return D(["C18"], "counts-disagree-with-enumeration-on-reopened-index", cut=label, count_pages=cp, pages_enumerated=len(pages),
+                     count_crawled=cc, crawled_enumerated=sum(pages.values()))
         for l, c in pages.items():
             if l not in facts["pages"]:
                 return D(["C18"], "page-not-in-complete-history", cut=label, lru=l)
